@@ -26,8 +26,8 @@ func DeepDumpMask(v interface{}, lo, hi int64) string {
 }
 
 type dumper struct {
-	b   strings.Builder
-	ids map[unsafe.Pointer]int
+	b      strings.Builder
+	ids    map[unsafe.Pointer]int
 	lo, hi int64
 }
 
